@@ -704,6 +704,9 @@ class C04(Prop):
       return 'default-not-revalidated'
     if dict_default_gap(sb, sc):
       return 'dict-field-default-ignored'
+    if any(c[0] != 'union' and b[0] == 'union' and any(x[0] == c[0] and x[-1][2] for x in b[1])
+           for c, b in aligned(sc, sb)):
+      return 'frozen-union-candidate-ignored'       # F292: the frozen-base guard skips the resolved candidate
     if union_int_and_float(sb) and any(x[0] in ('i', 'b', 'f', 's') for x in vat):
       return 'union-dispatches-by-type'
     for d in spec_atoms(sc, True, []):
